@@ -31,6 +31,8 @@ QUICK = [
     ('split_orderbook_last', dict(T=4, ob_last=True, orders=((0, 1, 2.0), (2, 4, -1.5), (3, 4, 1.0))), '2h', 'A'),
     ('last_asset_outside_horizon', dict(T=3, wins=((0, 3), (1, 3), (6, 8))), None, 'B'),
     ('last_asset_outside_horizon_split', dict(T=4, wins=((0, 4), (1, 3), (6, 8))), '2h', 'A'),
+    ('split_structured', dict(T=4), '2h', 'A'),
+    ('split_scaled_storage', dict(T=4, base='storage'), '2h', 'A'),
 ]
 THOROUGH = QUICK + [
     ('two_node_T4_2n', dict(T=4, wacc=True, two_node_storage=True), None, 'B'),
